@@ -21,7 +21,7 @@ from .c10 import random_rel
 
 LEVEL = "exploration"
 BUDGET_S = {"quick": 60, "thorough": 1200}
-N_RANDOM = {"quick": 250, "thorough": 8000}
+N_RANDOM = {"quick": 1200, "thorough": 30000}
 
 _x, _y = ["vec", "x"], ["vec", "y"]
 
